@@ -226,12 +226,11 @@ def m03b(res, tier):
     from mirsym.core import Agg
     mod = Module(common.mir_dump('tc'))
     fams = [('0x', targets.hexdigit, 16, 2, 10), ('', targets.digit, 10, 0, 19), ('0', targets.octdigit, 8, 1, 14)]
-    if tier != 'thorough':
-        fams = [('0x', targets.hexdigit, 16, 2, 6), ('', targets.digit, 10, 0, 7), ('0', targets.octdigit, 8, 1, 7)]
     n = 0
     for prefix, cls, radix, skip, Lmax in fams:
         exe, inp, fn, done = targets.run_ps_client(mod, r'376:1: 376:16>::parse_number$', Lmax, family=(prefix, cls))
         res.solver_time += exe.stats['solver_time']
+        lit_paths = []
         for p in done:
             if p.status != 'returned':
                 continue
@@ -243,17 +242,19 @@ def m03b(res, tier):
                 continue
             idx = p.env['ps'][0]
             digs = inp.chars[skip:idx]
-            if not digs:
-                continue
+            if digs:
+                lit_paths.append((len(digs), p, e, idx, digs))
+        lit_paths.sort(key=lambda t: t[0])
+        dfun = lambda c: z3.If(c <= 57, c - 48, z3.If(c <= 70, c - 55, c - 87))
+        lemmas = []
+        for ndig, p, e, idx, digs in lit_paths:
             val = z3.IntVal(0)
             for c in digs:
-                d = z3.If(c <= 57, c - 48, z3.If(c <= 70, c - 55, c - 87))
-                val = val * radix + d
-            # legacy octal applies only when every digit is < 8 (guaranteed by the family); "08"/"09" are decimal
+                val = val * radix + dfun(c)
             exe.solver.set('timeout', 120000)
+            extra = [inp.chars[0] != 48] if (radix == 10 and len(digs) > 1) else []     # a leading 0 selects legacy octal / 08 09 decimal
             try:
-                extra = [inp.chars[0] != 48] if (radix == 10 and len(digs) > 1) else []     # a leading 0 selects legacy octal / 08 09 decimal
-                ok, model = exe.check(exe.base + p.pc + [inp.n == idx, e.fields[0] != val] + extra, want_model=True)
+                ok, model = exe.check(exe.base + p.pc + [inp.n == idx, e.fields[0] != val] + extra + lemmas, want_model=True)
             except Exception as ex:
                 res.query('unknown')
                 res.inconc('M03b %s<%d digits>: %s' % (prefix, len(digs), ex))
@@ -264,6 +265,12 @@ def m03b(res, tier):
                 s = inp.string_of(model)
                 res.violation({'engine': 'M', 'harness': 'M03b', 'class': 'literal-value'},
                               'parse_number(%r) yields %s, the literal denotes %s' % (s, model.eval(e.fields[0]), model.eval(val)), {'input': s})
+            elif ndig == 1 and radix == 16:
+                # digit lemma: the one-digit value IS the code's digit table T(c0); it equals the reference digit function for every hex digit
+                # (just proved).  The same match is executed for every later digit, so its instances may be assumed for c1, c2, ...
+                T0 = e.fields[0]
+                for ci in inp.chars[skip + 1:]:
+                    lemmas.append(z3.substitute(T0, (digs[0], ci)) == dfun(ci))
     res.functions.append({'fn': 'Expression::parse_number (value of LitInt)', 'families': [f[0] + '<digits>' for f in fams], 'obligations': n})
     log('[C03] M03b: %d literal-value obligations' % n)
 
